@@ -19,14 +19,14 @@ type c12Scn struct {
 	dirs []string
 	dec  int
 	// history parameters
-	status   int
-	elapsed  int64
-	otherCC  string // Cache-Control on the other side (canonical)
-	follow   string // what the origin answers in the follow-up exchange: "200" | "304" | "500"
-	lmAgo    int64  // Last-Modified this many seconds before Date (0: none)
-	emptyDB  bool   // request-side scenario on an empty store
-	secret   bool   // stored response carries X-Secret
-	twoGets  bool   // request-side scenario: rewritten CC on the first (storing) request, then plain GET
+	status  int
+	elapsed int64
+	otherCC string // Cache-Control on the other side (canonical)
+	follow  string // what the origin answers in the follow-up exchange: "200" | "304" | "500"
+	lmAgo   int64  // Last-Modified this many seconds before Date (0: none)
+	emptyDB bool   // request-side scenario on an empty store
+	secret  bool   // stored response carries X-Secret
+	twoGets bool   // request-side scenario: rewritten CC on the first (storing) request, then plain GET
 }
 
 var c12Scns = []c12Scn{
